@@ -843,6 +843,9 @@ def apply(ctx, res, prop, floor=None):
                  (prop == "C07" and rec["prop"] == "C16" and (rec["key"].endswith(":no-link-into-unowned-table") or
                                                               rec["key"].endswith(":table-not-detached") or rec["key"].endswith(":no-unlinked-entry"))) or \
                  (prop == "C11" and rec["prop"] == "C03" and rec["key"].startswith("mutate:")) or \
+                 (prop == "C11" and rec["prop"] == "C05" and rec["key"].startswith("mutate:") and rec["key"].endswith(":hit-promotes")) or \
+                 (prop == "C10" and rec["prop"] in ("C02", "C16") and rec["key"].endswith(":CS=G")) or \
+                 (prop == "C13" and rec["prop"] == "C05" and rec["key"].split(":")[0] in ("reserve", "try_reserve", "shrink_to", "shrink_to_fit")) or \
                  (prop == "C10" and rec["prop"] == "C01" and ":add->" in rec["key"] and rec["key"].split(":")[0] in ("insert", "try_insert")) or \
                  (prop == "C03" and rec["prop"] == "C10" and rec["key"].startswith("insert:exit[Err") and rec["key"].endswith(":atomic")) or \
                  (prop == "C03" and rec["prop"] == "C11" and rec["key"].endswith(":re-accounted"))
